@@ -1,5 +1,5 @@
 (* C08 — diagnosis of the obligations on regenerated tables: the concrete offending entries, independent of any proof. *)
-From V Require Import Base.Common Base.C08_Str Gen.C08Status Model.C08_Status.
+From V Require Import Base.Common Base.C08_Str Gen.C08Status Model.C08_Status Base.C08_Schema Gen.C08Tags Model.C08_Fmap.
 Open Scope string_scope.
 Open Scope list_scope.
 Open Scope N_scope.
@@ -21,3 +21,15 @@ Print diag_status_names_roundtrip.
 
 Definition size_status_table := Eval vm_compute in length st_table.
 Print size_status_table.
+
+(* structs of the tag table that break the premise of the codec theorem (duplicate key, "-" field, unknown or by-value
+   struct field type), per codec *)
+Definition diag_tags_msgpack_wellformed := Eval vm_compute in
+  map fst (filter (fun e => negb (struct_ok Msgpack api_schema (snd e))) api_schema)
+  ++ (if snodup (map fst api_schema) then [] else ["<two structs with the same name>"]).
+Print diag_tags_msgpack_wellformed.
+Definition diag_tags_json_wellformed := Eval vm_compute in
+  map fst (filter (fun e => negb (struct_ok Json api_schema (snd e))) api_schema).
+Print diag_tags_json_wellformed.
+Definition size_tag_table := Eval vm_compute in length api_schema.
+Print size_tag_table.
